@@ -107,6 +107,8 @@ TIE_FUNCS = {
                               "LeanString.extend_char_ref", "LeanString.from_iter_string", "LeanString.from_iter_box",
                               "LeanString.from_iter_cow", "LeanString.from_iter_ls", "LeanString.from_iter_char_ref",
                               "LeanString.from_utf16_lossy", "LeanString.from_iter_char", "LeanString.extend_char",
+                              "LeanString.from_char_conv", "LeanString.from_string", "LeanString.from_string_ref", "LeanString.from_box",
+                              "LeanString.from_ls_ref", "LeanString.from_str_trait", "LeanString.from_str_ref", "LeanString.clone",
                               "LeanString.push_str", "LeanString.new", "LeanString.drop"],
     "LSProofs.Props.C01G": [],
     "LSProofs.Gen.Good": ["Repr.push_str", "Repr.insert_str", "Repr.pop", "Repr.remove", "Repr.reserve", "Repr.ensure_modifiable",
@@ -120,8 +122,8 @@ TIES = {
     "C05": T("Reserve", "Ensure", "Shrink", "SetLen", "Ctor", "PushStr", "InsertStr", "PopRemove", "Wrappers", "Panicking", "Extend", "Collect", "HeapBuf"),
     "C06": T("Reserve", "Shrink", "Ctor", "Extend", "Collect", "HeapBuf"),
     "C07": T("SetLen", "InsertStr", "PopRemove"),
-    "C08": T("Clone", "CloneDrop"),
-    "C09": T("Ctor", "Reserve", "PushStr", "InsertStr", "PopRemove", "Wrappers", "Bytes", "Retain"),
+    "C08": T("Clone", "CloneDrop", "IterGlue"),
+    "C09": T("Ctor", "Reserve", "PushStr", "InsertStr", "PopRemove", "Wrappers", "Bytes", "Retain", "IterGlue"),
     "C10": T("Ctor", "Reserve", "Ensure", "Clear", "SetLen", "Bytes"),
     "C11": T("Readers", "Ctor", "Reserve", "PushStr", "InsertStr", "Wrappers", "HeapBuf"),
     "C12": T("Reserve", "HeapBuf"),
